@@ -198,6 +198,12 @@ class LibMixin:
         # analyses depend on ends in an analysis limit there, never in a silent verdict.
         if n == "textwrap" and attr in ("dedent", "indent"):
             return F(f"textwrap.{attr}")
+        if n == "sys" and attr == "float_info":
+            import sys as _sys
+            return InstV(L("sys.float_info"), {"max": _sys.float_info.max, "min": _sys.float_info.min, "epsilon": _sys.float_info.epsilon,
+                                               "dig": _sys.float_info.dig, "mant_dig": _sys.float_info.mant_dig})
+        if n == "math" and attr in ("inf", "nan", "pi", "e"):
+            return getattr(_math, attr)
         return OpaqueV(f"{n}.{attr}")
 
     def module(self, name):  # extends InterpCore.module for third-party packages modelled as absent
@@ -978,6 +984,10 @@ class LibMixin:
             if isinstance(o, tuple) and not is_concrete(o):
                 if name in ("index", "count"):
                     self.limit("tuple method on symbolic tuple", node)
+            if isinstance(o, frozenset) and name in ("add", "discard", "remove", "pop", "clear", "update", "intersection_update",
+                                                     "difference_update", "symmetric_difference_update"):
+                # set() is modelled by an immutable frozenset: a mutation is something the model cannot follow, never an AttributeError
+                self.limit(f"mutation of a set (.{name}) is not modelled", node)
             try:
                 r = getattr(o, name)
             except AttributeError as e:
@@ -1078,7 +1088,7 @@ class LibMixin:
                 return d.d.pop(k)
             if len(a) > 1:
                 return a[1]
-            self.throw("KeyError", repr(k), node)
+            self.throw_key(k, node)
         if name == "clear":
             d.d.clear()
             return None
@@ -1128,12 +1138,12 @@ class LibMixin:
                 self.limit("subscript of a weakly updated dict key", node)
             if hit:
                 return o.d[k]
-            self.throw("KeyError", repr(k), node)
+            self.throw_key(k, node)
         if isinstance(o, (LibClass, LibFn, OpaqueV)) or (isinstance(o, ClassV) and not isinstance(k, Sym)):
             if isinstance(o, ClassV) and "enum" in o.flags:
                 if isinstance(k, str) and k in o.flags["enum"]:
                     return o.flags["enum"][k]
-                self.throw("KeyError", repr(k), node)
+                self.throw_key(k, node)
             args = k if isinstance(k, tuple) else (k,)
             if isinstance(o, OpaqueV):
                 return OpaqueV(f"{o.what}[...]")
